@@ -376,3 +376,87 @@ def guided_compare(rep, rule, key, label, world, thunk, grids, oracle,
               'requires %s' % (label, bad[0], _sig(bad[1]), _sig(bad[2])),
               where, case={'label': label, 'input': bad[0]})
     return False
+
+
+# --------------------------------------------------------------- history
+_RET_ID = None
+
+
+def _norm_text(v):
+    """Rendering of an outcome value in which the serial numbers of opaque
+    call results are dropped (they only say how many opaque calls came
+    before on the path)."""
+    import re as _re
+    s = show(v) if not isinstance(v, str) else v
+    s = _re.sub(r'ret\(([^,()]+), \d+', r'ret(\1', s)
+    s = _re.sub(r'obj\(([^,()]+), \d+\)', r'obj(\1)', s)
+    return s
+
+
+def history_compare(rep, rule, key, world, prepare, earlier, later,
+                    setup=None, depth=6, label=None, where=None):
+    """What a call answers must not depend on the calls made before it.
+
+    *prepare(interp)* -> the callable under test (a function, or a bound
+    method of an object built there); *earlier* / *later* are (args, kwargs)
+    of constants.  Two explorations: ``later`` alone, and ``earlier`` (its
+    own outcome ignored) followed by ``later`` on the same callable; the
+    outcomes of ``later`` must be the same path by path."""
+    from .absint import AbsRaise
+
+    def fresh(interp):
+        f = prepare(interp)
+        return interp.call(f, list(later[0]), dict(later[1]))
+
+    def after(interp):
+        f = prepare(interp)
+        try:
+            interp.call(f, list(earlier[0]), dict(earlier[1]))
+        except AbsRaise:
+            pass
+        interp.effects.append(('history-mark',))
+        return interp.call(f, list(later[0]), dict(later[1]))
+    label = label or '%s then %s' % (
+        ', '.join(show(a) for a in earlier[0]),
+        ', '.join(show(a) for a in later[0]))
+    try:
+        o1, _i = extract(world, fresh, setup=setup, depth=depth,
+                         max_paths=256)
+        o2, _i = extract(world, after, setup=setup, depth=depth,
+                         max_paths=1024)
+    except AnalysisError as e:
+        rep.undecided(rule, key, '%s: %s' % (label, e), where)
+        return None
+    if getattr(o1, 'overflow', None) or getattr(o2, 'overflow', None) or \
+            inexact_notes(o1) or inexact_notes(o2):
+        rep.undecided(rule, key, '%s: inexact: %s' % (
+            label, inexact_notes(o1) or inexact_notes(o2) or 'path bound'),
+            where)
+        return None
+
+    def res(o):
+        if o.kind == 'raise':
+            return 'raise %s' % (o.exc_class,)
+        return 'return %s' % _norm_text(o.value)
+    terms1 = set()
+    for o in o1:
+        terms1.update(_norm_text(t) for t, _b in o.assumptions)
+    want = set()
+    for o in o1:
+        want.add((frozenset((_norm_text(t), b) for t, b in o.assumptions),
+                  res(o)))
+    got = set()
+    for o in o2:
+        got.add((frozenset((_norm_text(t), b) for t, b in o.assumptions
+                           if _norm_text(t) in terms1), res(o)))
+    rep.case({'case': label, 'outcomes': sorted(r for _a, r in want)[:4]},
+             (key, label))
+    extra = sorted(r for a, r in got - want)
+    ok = got == want
+    rep.check(rule, key, ok,
+              '%s: the second call answers %s, alone it answers %s' % (
+                  label, extra[:3] or sorted(r for _a, r in got)[:3],
+                  sorted(r for _a, r in want)[:3]) if not ok else
+              '%s: same answer as without the earlier call' % label,
+              where, case=label)
+    return ok
